@@ -220,6 +220,23 @@ func runCheck(eng *engine, prop, tier string, ps *PropSpec, verif string, seed i
 				}
 				fmt.Fprintf(&out, "%s %s: paths=%d %v instr=%d sched-points=%d obligations=%d discharged=%d queries(sat=%d unsat=%d unknown=%d err=%d) solver=%.1fs wall=%.1fs exhausted=%v\n",
 					prop, tag, h.paths, h.pathsByStatus, h.steps, h.transitions, nObl, nDis, h.solver.Sat, h.solver.Unsat, h.solver.Unknown, h.solver.Errors, h.solver.Seconds, h.wall, h.exhausted)
+				if eng.verbose && len(h.forks) > 0 {
+					type kv struct {
+						k string
+						v int
+					}
+					var kvs []kv
+					for k, v := range h.forks {
+						kvs = append(kvs, kv{k, v})
+					}
+					sort.Slice(kvs, func(i, j int) bool { return kvs[i].v > kvs[j].v })
+					for i, x := range kvs {
+						if i >= 25 {
+							break
+						}
+						fmt.Fprintf(&out, "    fork x%d at %s\n", x.v, x.k)
+					}
+				}
 				for _, em := range h.errors {
 					fmt.Fprintf(&out, "  engine error: %s\n", em)
 					incl = append(incl, tag+": engine error: "+em)
